@@ -207,6 +207,9 @@ def conservation(ctx, prog, name):
 
 
 def run(ctx):
+    from rules.common import require_fields
+    require_fields(ctx.program, 'socketutils.BufferedSocket', ['rbuf', 'sbuf', 'sock', 'maxsize'])
+    require_fields(ctx.program, 'socketutils.NetstringSocket', ['bsock', 'maxsize', '_msgsize_maxsize'])
     prog = ctx.program
     ci = prog.cls(CLS)
     for name in ('recv', 'peek', 'recv_close', 'recv_until', 'recv_size'):
